@@ -159,6 +159,10 @@ def run(ctx):
                               "groups" % norm(c)[:50], desc="`%s` sized by the split table" % norm(c)[:40])
         ctx.floor("R20.3", "len()/range() uses after the Delay split", n_len, 2)
 
+    ctx.rule("R20.4", "each Delay-shifted group is appended under an index computed afresh for that group")
+    from rules.c10 import delay_split_rule
+    delay_split_rule(ctx, "R20.4")
+
     # popped events are ended
     vt = view(ctx, temporal)
     pops = []
